@@ -92,10 +92,14 @@ func H_C02_onewrite() {
 	l, mu := c02Root(kind, w, threshold)
 	w.mu = mu
 	// an earlier record first: the pool may hand its buffer back (fork: recycled or new)
-	first := vxPick(2) == 1
-	if first {
+	first := vxPick(3)
+	if first == 1 {
 		c02Log(l, 3, "earlier record")
 		w.writes = nil
+	} else if first == 2 {
+		c02Log(l, 3, "earlier oversized record"+strings.Repeat("y", 17000)) // its buffer must not come back polluted
+		w.writes = nil
+		vxReach("earlier record larger than 16 KiB")
 	}
 	c02Log(l, lvl, msg)
 	if c02Levels[lvl] < threshold {
